@@ -446,6 +446,39 @@ Proof.
       * rewrite E. simpl. auto.
 Qed.
 
+(* the PINNED way of writing the marker (created and written in place) under the repaired id-list check: safe as long as
+   the id list reaches the file in ONE write system call (at most 2048 ids); in two pieces: marker_in_pieces_refuted *)
+Theorem crash_safe_marker_last_pinned (body : list fop) ps s0 k :
+  Forall (avoids PIds) body -> s0 PIds = None ->
+  let ops := body ++ ops_create_ids_pinned ps ++ ops_meta_all (created_ids ps) in
+  In (recover_cat true (apply (firstn k ops) s0)) [Err; recover_cat true (apply ops s0)].
+Proof.
+  intros Hb H0 ops. unfold ops.
+  destruct (firstn_app_cases k body (ops_create_ids_pinned ps ++ ops_meta_all (created_ids ps))) as [[_ ->]|[j [_ ->]]].
+  - left. symmetry. apply recover_no_ids. rewrite apply_untouched; [exact H0|]. apply Forall_firstn, Hb.
+  - rewrite !apply_app. set (s1 := apply body s0).
+    destruct j as [|[|j]].
+    + left. symmetry. simpl. apply recover_no_ids. unfold s1. rewrite apply_untouched; [exact H0|exact Hb].
+    + left. simpl. unfold recover_cat. simpl. destruct (s1 PRoot); reflexivity.
+    + change (firstn (S (S j)) (ops_create_ids_pinned ps ++ ops_meta_all (created_ids ps)))
+        with (ops_create_ids_pinned ps ++ firstn j (ops_meta_all (created_ids ps))).
+      rewrite !apply_app. set (s2 := apply (ops_create_ids_pinned ps) s1).
+      rewrite ops_meta_all_eq.
+      pose proof (ops_metadata_shape empty_fs (created_ids ps)) as Hsh.
+      assert (Hsh' : Forall is_meta_put (firstn j (ops_metadata empty_fs (created_ids ps)))) by (apply Forall_firstn; exact Hsh).
+      assert (Hids : s2 PIds = Some (IdsF (created_ids ps))) by reflexivity.
+      destruct (recover_meta_only true (apply (firstn j (ops_metadata empty_fs (created_ids ps))) s2)
+                                       (apply (ops_metadata empty_fs (created_ids ps)) s2)) as [E|E].
+      * rewrite !meta_puts_untouched; auto; discriminate.
+      * rewrite !meta_puts_untouched; auto; discriminate.
+      * intro i. rewrite !meta_puts_untouched; auto; discriminate.
+      * unfold ids_of. rewrite meta_puts_untouched; [|exact Hsh|discriminate]. rewrite Hids.
+        intros i Hin. apply meta_final. right. split; [exact Hin|reflexivity].
+      * rewrite E. simpl. auto.
+      * rewrite E. simpl. auto.
+Qed.
+
+
 (* F21 and F35 repaired: with an empty id list treated as an error and the id list moved into place by one rename, a
    crash at any point of the creation of a catalog (in a directory without patch_ids.bin) leaves an error or the
    complete new catalog *)
@@ -1282,3 +1315,13 @@ Proof.
   split; [|vm_compute; repeat split].
   intro q. destruct q as [| |[|[|i]]|[|[|i]]|i|i|i| | | | |n|]; reflexivity.
 Qed.
+
+(* ------------------------------------------------------------------ mixed forms *)
+Lemma w_class2_same b w k req : w_class2 b b w k req = w_class b w k req.
+Proof. destruct w; reflexivity. Qed.
+Lemma w_class_at2_same b w s req : w_class_at2 b b w s req = w_class_at b w s req.
+Proof. destruct w; reflexivity. Qed.
+Lemma c08_case2_same b w k req c : c08_case2 b b w k req c = c08_case b w k req c.
+Proof. unfold c08_case2, c08_case. rewrite w_class2_same. reflexivity. Qed.
+Lemma c08_unwound2_same b w l req c chk : c08_unwound2 b b w l req c chk = c08_unwound b w l req c chk.
+Proof. unfold c08_unwound2, c08_unwound. rewrite w_class_at2_same. reflexivity. Qed.
